@@ -477,9 +477,65 @@ pub fn run(tier: Tier, seed: u64) -> i32 {
         exhaustive_note: "all row shapes over the stated menus for every configuration and program form".into(),
         e1: false,
     };
+    total.merge(many_clocks_cases(&deadline));
     finish(meta, total, started)
 }
 
+
+/// Rows with many clock columns (9 to 20 C entries at once, next to literals, an X and a Z): all
+/// clock columns go 0, 1, 0 together, everything else is held.
+fn many_clocks_cases(deadline: &Deadline) -> Stats {
+    let ns = [8usize, 9, 10, 16, 17, 20];
+    par_range("rows with 8, 9, 10, 16, 17, 20 clock columns x {all C, every other one C, C with an X and a Z among them} x 2 signal-list orders", ns.len() as u64 * 6, deadline, |u, st| {
+        let n = ns[(u / 6) as usize];
+        let shape = (u / 2) % 3;
+        let rev = u % 2 == 1;
+        let mut sigs: Vec<Sig> = (0..n).map(|i| Sig::inp(&format!("K{i}"), 1, 0)).collect();
+        sigs.push(Sig::inp("D", 4, 3));
+        sigs.push(Sig::bidir("E", 4, V::Z));
+        sigs.push(Sig::out("Q", 4));
+        let mut header: Vec<String> = (0..n).map(|i| format!("K{i}")).collect();
+        header.extend(["D".to_string(), "E".to_string(), "Q".to_string()]);
+        if rev {
+            sigs.reverse();
+        }
+        let clk = |i: usize| match shape {
+            0 => Entry::C,
+            1 => {
+                if i % 2 == 0 {
+                    Entry::C
+                } else {
+                    l((i % 2) as i64)
+                }
+            }
+            _ => {
+                if i == 3 {
+                    Entry::X
+                } else {
+                    Entry::C
+                }
+            }
+        };
+        let mut row: Vec<Entry> = (0..n).map(clk).collect();
+        row.extend([l(9), if shape == 2 { Entry::Z } else { l(2) }, l(5)]);
+        let mut row2: Vec<Entry> = (0..n).map(|i| if i + 1 == n { Entry::C } else { l(1) }).collect();
+        row2.extend([l(1), l(1), Entry::X]);
+        let prog = Program { header, body: vec![Stmt::Row(row), Stmt::Row(row2)] };
+        let text = text(&prog);
+        let script = vec![Step::Ans(vec![("Q".into(), V::Num(5)), ("E".into(), V::Num(2))])];
+        let r = ref_run_fuel(&prog, &sigs, &script, 10_000, 40);
+        let mut opts = RunOpts::new(r.items.len() + 1);
+        opts.repeat_last = true;
+        let obs = run_dynamic(&text, &sigs, true, &script, &opts);
+        st.evals += 1;
+        st.nontrivial += 1;
+        st.witness("row_with_nine_or_more_clock_columns");
+        let proj = Proj { input_values: true, expected: true, output: false, checked_kind: true, lines: false, vars: false, verdicts: false };
+        if let Some((k, m)) = run_mismatch(&r, &obs, proj, None) {
+            st.violation(&format!("many clocks: {}", classify(&m)), (1 << 62) + u, format!("{n} clock columns, shape {shape}\nprogram:\n{text}first difference at {m} (item {k})"), || dyn_replay(&text, &sigs, true, &script, &opts, ref_items_brief(&r), &obs, &m));
+        }
+    })
+}
 
 fn xcase_program(nx: usize, with_c: bool) -> (Program, Vec<Sig>) {
     let mut sigs: Vec<Sig> = (0..nx).map(|i| Sig::inp(&format!("I{i}"), 1, 0)).collect();
